@@ -466,11 +466,17 @@ def make_func(spec):
         ann["return"] = build(spec["ret"])
     fn.__annotations__ = ann
     out = spec["out"]
+    renames = dict(spec.get("renames") or {})
+    out_py = spec.get("out_py")  # python-level output names that are renamed to `out` (position by position)
+    if out_py:
+        finals = out if isinstance(out, list) else [out]
+        renames.update({p: o for p, o in zip(out_py, finals) if p != o})
+        out = list(out_py) if isinstance(out, list) else out_py[0]
     return PipeFunc(
         fn,
         output_name=tuple(out) if isinstance(out, list) else out,
         mapspec=spec.get("mapspec"),
-        renames=dict(spec.get("renames") or {}),
+        renames=renames,
     )
 
 
@@ -529,6 +535,8 @@ def body_pipeline(data) -> Outcome:
         out.labels.append("tuple-output")
     if any(f.get("renames") for f in funcs):
         out.labels.append("renames")
+    if any(f.get("out_py") for f in funcs):
+        out.labels.append("output-renamed" + ("-multi" if isinstance(funcs[0]["out"], list) else ""))
     if validate and explicit_bad and any(edges[i][5] for i in explicit_bad):
         out.labels.append("incompatible-reduced-edge")
     if validate and n_red and not explicit_bad and any(
@@ -919,7 +927,13 @@ def pipeline_case(draw):
         if hms:
             h["mapspec"] = hms
         funcs.append(h)
-    return {"mode": mode, "funcs": funcs, "validate": draw(st.sampled_from([True, True, True, True, False]))}
+    validate = draw(st.sampled_from([True, True, True, True, False]))
+    out_rename = draw(st.sampled_from([None, None, "plain", "swap"]))
+    if out_rename == "plain":
+        f["out_py"] = ["w", "w2"] if multi else ["w"]
+    elif out_rename == "swap" and multi:
+        f["out_py"] = ["y2", "y"]  # the outputs exchange their names: the tuple members stay with their positions
+    return {"mode": mode, "funcs": funcs, "validate": validate}
 
 
 def campaigns(tier):
